@@ -51,6 +51,9 @@ func (w *world) observeChain() {
 		if len(wantReorg) > 0 {
 			c.Probe("store_after_revert")
 		}
+		if w.fg != nil {
+			w.fg.onStore(storedNow)
+		}
 	case height == prev-1:
 		if !released {
 			c.Broken("head went back without a commit being released")
@@ -69,6 +72,9 @@ func (w *world) observeChain() {
 		}
 		if !w.noSyncOracle {
 			w.checkRevertJustified(x)
+		}
+		if w.fg != nil {
+			w.fg.onRevert(x)
 		}
 	default:
 		c.Fail("head_jump", "height", "node height went from %d to %d across one commit", prev, height)
@@ -281,7 +287,7 @@ func (w *world) c06Options(ps []*req) []option {
 		}
 		opts = append(opts, option{r.key, gw, func() { w.choose("variant", ro) }})
 	}
-	if w.cfg.ticks || len(opts) == 0 {
+	if (w.cfg.ticks && (w.fg == nil || w.fg.canTick())) || len(opts) == 0 {
 		opts = append(opts, option{"tick", 2, func() { w.sleep("to the next latest-header poll", w.nextLatestTick()) }})
 	}
 	return append(opts, w.envOptions()...)
@@ -312,6 +318,10 @@ func (w *world) fairStep(ps []*req) {
 
 // tailOther answers request kinds of the pre-confirmed side in the tail (C20 installs the real one).
 func (w *world) tailOther(r *req) {
+	if w.fg != nil {
+		w.fg.tailAnswer(r)
+		return
+	}
 	w.logf("answer %s: error (endpoint not served)", r.key)
 	w.release(r, resp{err: errInjected})
 }
@@ -326,6 +336,9 @@ func (w *world) tail() {
 	}
 	depth, gap := len(w.local)-common, len(w.cur.chain)-common
 	bound := 40 * (depth + gap + 4)
+	if w.fg != nil {
+		bound *= w.fg.stepFactor() // one DataSource call is several scheduler steps on the HTTP seam
+	}
 	w.logf("tail: node has %d blocks, source v%d has %d, common prefix %d: depth %d gap %d, bound %d steps", len(w.local), w.cur.id, len(w.cur.chain), common, depth, gap, bound)
 	if depth > 0 {
 		c.Probe("tail_starts_diverged")
@@ -336,6 +349,10 @@ func (w *world) tail() {
 		if w.converged() {
 			w.logf("tail: converged after %d steps", i)
 			c.Probe("converged_in_tail")
+			if w.fg != nil {
+				// (not after shutdown: commits still parked then - a revert walk in flight - are released by it)
+				w.fg.checkClasses(w.local, "converged")
+			}
 			return
 		}
 		if i >= bound {
@@ -368,6 +385,9 @@ func (w *world) logConfig() {
 	cfg := w.cfg
 	w.c.Logf("cfg: gomaxprocs=%d newstate=%v init=%d presync=%d steps=%d faulty=%v errs=%v corrupt=%v otherfork=%v stalever=%v stalelatest=%v flap=%v growth=%v reorgs=%v ticks=%v preconf=%v interval=%s gen=%+v",
 		cfg.gomaxprocs, cfg.newState, cfg.initLen, cfg.presync, cfg.steps, cfg.faulty, cfg.errs, cfg.corrupt, cfg.otherFork, cfg.staleVer, cfg.staleLat, cfg.flap, cfg.growth, cfg.reorgs, cfg.ticks, cfg.preconf, cfg.interval, w.drv.opts)
+	if cfg.feeder {
+		w.c.Logf("cfg: feeder class %+v", cfg.fc)
+	}
 }
 
 func (w *world) finish() {
@@ -394,6 +414,9 @@ func (w *world) finish() {
 		"gomaxprocs": cfg.gomaxprocs, "new_state_backend": cfg.newState, "initial_source_blocks": cfg.initLen, "presynced": cfg.presync,
 		"steps": cfg.steps, "faulty": cfg.faulty, "source_versions": len(w.versions), "source_reorgs": w.reorgsN,
 		"stores": w.storesN, "reverts": w.revertsN, "corrupt_blocks_served": len(w.tampered), "final_height": len(w.local) - 1,
+	}
+	if w.fg != nil {
+		w.fg.finish()
 	}
 	c.Logf("end: stores=%d reverts=%d versions=%d reorgs=%d corrupt=%d height=%d at +%s", w.storesN, w.revertsN, len(w.versions), w.reorgsN, len(w.tampered), len(w.local)-1, w.rel())
 }
